@@ -496,7 +496,10 @@ func ToQuantity(ctx *expr.Context, input system.Collection, args ...expr.Express
 			return system.Collection{result}, nil
 		}
 		unit := strings.Trim(res[1], "'")
-		result := system.MustParseQuantity(res[0], unit)
+		result, err := system.ParseQuantity(res[0], unit)
+		if err != nil {
+			return system.Collection{}, nil // e.g. other white space than a space after the number
+		}
 		return system.Collection{result}, nil
 	case system.Boolean:
 		if value {
